@@ -118,7 +118,7 @@ def _circuit_queries(p, name, c, extra_constraints=(), describe=None, rebuild=No
         # one gate asked for explicitly (an internal one included): the value of the whole-circuit evaluation
         labs = [l for l in c.gates if l not in c.inputs]
         full_a = c.evaluate_full_circuit(dict(A))
-        for lab in (labs[:2] + labs[-2:]) if len(labs) > 4 else labs:
+        for lab in (labs[:1] + labs[-1:]) if len(labs) > 2 else labs:
             sa, sb = c.evaluate_circuit(dict(A), outputs=[lab]), c.evaluate_circuit(dict(B), outputs=[lab])
             if lab not in sa or lab not in sb:
                 dis.append(("evaluate_circuit(outputs=[g]):keys", lab, z3.BoolVal(True)))
